@@ -253,6 +253,14 @@ func (w *World) genBlock(r *Rand) *BlockArgs {
 	if r.Chance(w.weight("p.junk")) {
 		rs := RoundSpec{Kind: "honest"}
 		n := 1 + r.Intn(20)
+		if r.Chance(0.3) {
+			// a flood of valid transactions: more than fit under the cap
+			n = 14 + r.Intn(12)
+			for i := 0; i < n; i++ {
+				rs.Junk = append(rs.Junk, "valid-empty-vote")
+			}
+			n = r.Intn(4)
+		}
 		for i := 0; i < n; i++ {
 			rs.Junk = append(rs.Junk, pick(r, junkKinds))
 		}
